@@ -11,6 +11,7 @@ mod ledger;
 mod imptree;
 mod camtgen;
 mod c18;
+mod c15;
 
 pub struct Opts {
     pub seed: u64,
@@ -73,6 +74,7 @@ fn main() {
         "c02" => c02::run(&o, "C02"),
         "c03" => c02::run(&o, "C03"),
         "c18" => c18::run(&o),
+        "c15" => c15::run(&o),
         _ => {
             eprintln!("unknown property {}", prop);
             std::process::exit(2);
